@@ -11,7 +11,7 @@ from ..core.source import AnchorMissing
 from .common import DEC, DECAY, builder_sites, ckey, fn, returns, stmt_of, where
 
 PROP = "C08"
-FILES = [DEC, DECAY, "utils/utilities.py", "utils/particleutils.py"]
+FILES = [DEC, DECAY, "utils/utilities.py", "utils/particleutils.py", "data/decfile.lark"]
 EXPLANATION = (
     "C08.1 effect analysis: for every query method of DecFileParser (26+) the transitive write set on parser state "
     "(self.*, class and module state, objects reachable from them, also through helper functions and Lark visitor "
@@ -28,6 +28,8 @@ RETURNS_LIVE_OK = {"grammar_info": "documented configuration handle (O2)", "gram
 
 
 def run(ctx, ss):
+    from .common import keyword_vocabulary
+    ctx.guard("C08.3", keyword_vocabulary, ss, "C08.3", ('copydecay',), ())
     from .c03 import c03_2
     from .c05 import c05_2
     for r, f in (("C08.1", c08_1), ("C08.2", c08_2), ("C08.3", c08_3), ("C08.3", c08_copy_guard), ("C08.5", c08_5), ("C08.6", c08_6), ("C08.7", c08_7)):
